@@ -28,7 +28,7 @@ VERIF = os.path.dirname(HERE)
 CACHE = os.path.join(VERIF, '.cache')
 CLANG = 'clang++-14'
 PYBIND_INC = '/venv/lib/python3.12/site-packages/torch/include'
-IR_VERSION = '7'
+IR_VERSION = '9'
 
 CONFIGS = {
     # name: (CPython include dir, extra flags)
@@ -259,13 +259,18 @@ class _TUBuilder:
             return
         if kind == 'FunctionTemplateDecl':
             first = True
+            tparams = [c.get('name') for c in d.get('inner', [])
+                       if isinstance(c, dict) and c.get('kind') in
+                       ('NonTypeTemplateParmDecl', 'TemplateTypeParmDecl',
+                        'TemplateTemplateParmDecl')]
             for c in d.get('inner', []):
                 if isinstance(c, dict) and c.get('kind') in FUNC_KINDS:
                     if first:
                         first = False
-                        self.visit_func(c, stack, True, template_parent=d)
+                        f = self.visit_func(c, stack, True, template_parent=d)
                     else:
-                        self.visit_func(c, stack, dependent, template_parent=d)
+                        f = self.visit_func(c, stack, dependent, template_parent=d)
+                    f.tparams = tuple(tparams)
                 else:
                     self._locskip(c)
             return
@@ -441,7 +446,7 @@ class _TUBuilder:
             res = None
             for c in inner:
                 n = self.conv(c)
-                if n is not None and res is None:
+                if n is not None and res is None and not n.kind.endswith('Attr'):
                     res = n
             return res
         n = Node(kind)
@@ -466,7 +471,7 @@ class _TUBuilder:
             n.value = d['value']
         for k in ('isArrow', 'castKind', 'ctorType', 'list', 'hasElse', 'hasInit', 'hasVar',
                   'isPostfix', 'init', 'storageClass', 'constexpr', 'isConstexpr',
-                  'conversionFunc', 'nrvo', 'isImplicit', 'valueCategory', 'field',
+                  'conversionFunc', 'nrvo', 'isImplicit', 'field',
                   'computeLHSType', 'hasExplicitTemplateArgs', 'foundReferencedDecl',
                   'explicitlyDefaulted'):
             if k in d:
